@@ -263,7 +263,20 @@ impl EncodingVersion for EncodingVersion1 {
         member: &DynamicTypeMember,
         dynamic_data: &mut DynamicData,
     ) -> XTypesResult<()> {
-        Self::deserialize_mmember(deserializer, member, dynamic_data)
+        // The member is serialized in place (not looked up by PID): read its header, then the
+        // value, and continue AFTER the value.  The serializer resets the alignment origin
+        // for the value (PUSH(ORIGIN=0)), so the reader has to do the same.
+        Self::align(deserializer, 4)?;
+        let _pid: u16 = deserializer.deserialize_primitive_type()?;
+        let length: u16 = deserializer.deserialize_primitive_type()?;
+        if length > 0 {
+            let saved_origin = deserializer.reader.origin;
+            deserializer.reader.origin = deserializer.reader.pos;
+            let result = deserializer.deserialize_value(member, dynamic_data);
+            deserializer.reader.origin = saved_origin;
+            result?;
+        }
+        Ok(())
     }
 
     /// Structures with extensibility MUTABLE, version 1 encoding
@@ -671,7 +684,7 @@ fn is_element_type_kind_primitive(member: &DynamicTypeMember) -> XTypesResult<bo
 impl<'a, E: EndiannessRead, V: EncodingVersion> XTypesDeserializer<'a, E, V> {
     fn new(buffer: &'a [u8], encoding_version: V, endianness: E) -> Self {
         Self {
-            reader: Reader { buffer, pos: 0 },
+            reader: Reader { buffer, pos: 0, origin: 0 },
             _endianness: endianness,
             _encoding_version: encoding_version,
         }
@@ -1314,6 +1327,7 @@ impl AsBytes for char {
 struct Reader<'a> {
     buffer: &'a [u8],
     pos: usize,
+    origin: usize,
 }
 
 impl<'a> Reader<'a> {
@@ -1346,7 +1360,8 @@ impl<'a> Reader<'a> {
 
     fn seek_padding(&mut self, alignment: usize) -> XTypesResult<()> {
         let mask = alignment - 1;
-        self.seek(((self.pos + mask) & !mask) - self.pos)
+        let rel = self.pos - self.origin;
+        self.seek(((rel + mask) & !mask) - rel)
     }
 }
 
